@@ -58,6 +58,9 @@ def generate(repo):
         except I.Unsupported as e:
             errors.append((PROP, "%s (%s): %s" % (cname, src, e)))
             out.append(I.not_translated(cname, src, e))
+        except Exception as e:  # noqa — an AST shape the library did not expect: same treatment, never raise
+            errors.append((PROP, "%s (%s): internal error %r" % (cname, src, e)))
+            out.append(I.not_translated(cname, src, "internal error %r" % (e,)))
 
     # the helpers of Checkup<double>, then the three evaluate functions that call them
     kb = {}
@@ -83,7 +86,9 @@ def generate(repo):
 def generate_to(gen_dir, repo="/repo"):
     try:
         text, errors = generate(repo)
-    except Exception as e:  # noqa
+    except Exception as e:  # noqa — nothing could be generated: leave no stale file behind
+        os.makedirs(gen_dir, exist_ok=True)
+        I.emit_file(os.path.join(gen_dir, "SrcDiag.v"), "(* NOT GENERATED: translator failed: %s *)\n" % repr(e).replace("*)", "* )").replace("(*", "( *"))
         return [(PROP, "translator failed: %r" % (e,))]
     os.makedirs(gen_dir, exist_ok=True)
     I.emit_file(os.path.join(gen_dir, "SrcDiag.v"), text)
